@@ -456,9 +456,10 @@ where
                     // We don't reset the chunk position when we leave a scope, so we need to do it here.
                     chunk.reset();
 
-                    self.chunk.set(chunk.raw);
-
                     if let Some(ptr) = f(chunk.raw, layout) {
+                        // Only switch chunks once the request is satisfied: if appending a new
+                        // chunk fails below, the current chunk must still be the one we started in.
+                        self.chunk.set(chunk.raw);
                         return Ok(ptr);
                     }
                 }
